@@ -34,22 +34,30 @@ def run(ck: common.Check):
         ("internal:mixed-chains", dict(), ck.n(200, 2000)),
         ("internal:malformed", dict(malformed=True), ck.n(150, 1000)),
     ]
-    wrap_fixed = detect_wrap_fixed()
-    A.WRAP_FIXED[0] = wrap_fixed
+    import c06_impl
+    variant = detect_variant()
+    c06_impl.VARIANT[0] = variant
+    ck.log("variant of %s/src/exo/core/internal_cursors.py: _forward_wrap.fwd_block anchors at %s; _forward_move block "
+           "branch %s" % (common.REPO, "rng.start (repaired)" if variant[0] else "blk_rng.start (as found)",
+                          "asserts (as found)" if variant[1] else "raises InvalidCursorError (repaired)"))
     for f in common.REPLAYS.glob('C06-*.json'):  # stale replays of earlier runs
         f.unlink()
-    ck.log("Block._forward_wrap.fwd_block variant in %s: %s" % (common.REPO, "repaired (rng.start)" if wrap_fixed else
-                                                               "as found (blk_rng.start)"))
     for stream, kw, n in plan:
-        tot = c06_corr.run(ck, n, stream, fixed=wrap_fixed, **kw)
+        tot = c06_corr.run(ck, n, stream, **kw)
         st = ck.streams[stream]
         ck.log("%s: cases %d agree %d diverge %d; cursors %d (ok %d invalid %d crash %d); internal-level "
-               "property failures: wrong-stmt %d dangling %d; moves outside move_pre %d"
+               "property failures: wrong-stmt %d dangling %d; moves outside move_pre %d; steps covered by "
+               "theorem C06_edit %d, its conclusion failing on the real result %d"
                % (stream, st["cases"], st["agree"], st["diverge"], tot.get("cursors", 0), tot.get("ok", 0),
                   tot.get("invalid", 0), tot.get("crash", 0), tot.get("same_fail", 0), tot.get("dangling", 0),
-                  tot.get("move_pre_false", 0)))
+                  tot.get("move_pre_false", 0), tot.get("thm_covered", 0), tot.get("thm_conclusion_fails", 0)))
 
     # ------------------------------------------------------------------ (b) API level
+    import c06_regress
+    rstats = {}
+    c06_regress.run(ck, rstats)
+    ck.log("regression reproducers: F2/F4/F5 (fixed) must pass, F1/F3 (open) are reported by the oracle: %s"
+           % dict(sorted((k, v) for k, v in rstats.items() if isinstance(v, int))))
     rng = random.Random(ck.rng.getrandbits(64))
     nprocs = ck.n(14, 110)
     per_proc = ck.n(14, 22)
@@ -189,11 +197,13 @@ def run(ck: common.Check):
     ck.log("C06 run took %.1fs" % (time.time() - t0))
 
 
-def detect_wrap_fixed():
-    """fail-closed look at Block._forward_wrap.fwd_block: which index does the third case return?"""
+def detect_variant():
+    """fail-closed look at the two places of internal_cursors.py that exist in two variants (Model.variant)"""
     import ast
     src = (common.REPO / "src" / "exo" / "core" / "internal_cursors.py").read_text()
     tree = ast.parse(src)
+    wrap_fixed = None
+    move_asserts = None
     for cls in [n for n in tree.body if isinstance(n, ast.ClassDef) and n.name == "Block"]:
         for fn in [n for n in cls.body if isinstance(n, ast.FunctionDef) and n.name == "_forward_wrap"]:
             for inner in [n for n in fn.body if isinstance(n, ast.FunctionDef) and n.name == "fwd_block"]:
@@ -202,8 +212,24 @@ def detect_wrap_fixed():
                     if len(elts) == 2 and isinstance(elts[0], ast.Tuple):
                         second = ast.unparse(elts[0].elts[1])
                         if second == "blk_rng.start":
-                            return False
-                        if second == "rng.start":
-                            return True
-                        raise RuntimeError("unexpected anchor index in _forward_wrap.fwd_block: " + second)
-    raise RuntimeError("cannot locate Block._forward_wrap.fwd_block")
+                            wrap_fixed = False
+                        elif second == "rng.start":
+                            wrap_fixed = True
+                        else:
+                            raise RuntimeError("unexpected anchor index in _forward_wrap.fwd_block: " + second)
+        for fn in [n for n in cls.body if isinstance(n, ast.FunctionDef) and n.name == "_forward_move"]:
+            for inner in [n for n in fn.body if isinstance(n, ast.FunctionDef) and n.name == "forward"]:
+                blk = [n for n in inner.body if isinstance(n, ast.If) and "Block" in ast.unparse(n.test)]
+                if len(blk) != 1:
+                    raise RuntimeError("cannot locate the Block branch of _forward_move.forward")
+                asserts = [ast.unparse(n.test) for n in ast.walk(blk[0]) if isinstance(n, ast.Assert)]
+                raises = [n for n in ast.walk(blk[0]) if isinstance(n, ast.Raise)]
+                if any("new_start <= new_end" in a for a in asserts):
+                    move_asserts = True
+                elif not asserts and len(raises) >= 2:
+                    move_asserts = False
+                else:
+                    raise RuntimeError("unexpected shape of the Block branch of _forward_move: asserts=%r" % asserts)
+    if wrap_fixed is None or move_asserts is None:
+        raise RuntimeError("cannot locate Block._forward_wrap.fwd_block / Block._forward_move.forward")
+    return (wrap_fixed, move_asserts)
